@@ -896,6 +896,19 @@ func (w *World) execCmd(cmd Cmd) {
 		kv["list"] = listing
 	}
 	w.rec.Emit("cmd_ret", kv)
+	if w.plan.Family == "own" {
+		// which targets have a probe loop right now (for the design model of the service table, spec/Own.tla)
+		w.mu.Lock()
+		open := []string{}
+		for hc, on := range w.hcs {
+			if on {
+				open = append(open, server.VerifHealthCheckEndpoint(hc))
+			}
+		}
+		w.mu.Unlock()
+		sort.Strings(open)
+		w.rec.Emit("probing_obs", KV{"c": cmd.ID, "tgs": open})
+	}
 	if w.plan.SnapObs {
 		cfg, ok := w.fileCfg()
 		w.rec.Emit("mem_obs", KV{"c": cmd.ID, "cfg": w.memCfg()})
